@@ -362,6 +362,65 @@ def factory_rules(chk, S, r4):
                     ok = ok and hom.deg(x) == 1 and T.value_atoms(x) == {"ieps"} and any(t_.op in ("np.ones_like", "np.ones") for t_ in T.subterms(x))
                 want = "inexact_eps * ones"
             r4.require(bool(ok), f"{cls}._tcoeffs_standard_deviation(is_exact={exact})", f"one entry per coefficient, {want}", f"{T.show(sd_, 4)}", qual, {"model": fam})
+        # "default scales": without an output_scale argument the stored base scale is the unit scale (one per dimension) -- the same prior in all three models
+        it = S.interp()
+        ssm = it.instantiate(it.class_value(qual), [], {}, "<harness>")
+        m = [T.atom("unit.m0", array=False), T.atom("unit.m1", array=False)]
+        sd = [T.atom("unit.s0", array=False), T.atom("unit.s1", array=False)]
+        try:
+            pr = call(it, method(it, ssm, "prior_wiener_integrated_diffuse"), m, sd)
+            osc = pr.fields.get("output_scale") if isinstance(pr, Rec) else None
+            core = osc
+            while isinstance(core, T.Term) and core.op in ("linalg.diagonal_matrix", "np.asarray", "tree.ravel") and core.args:
+                core = core.args[0]
+            ok = isinstance(core, T.Term) and core.op in ("np.ones", "np.ones_like") and not T.value_atoms(core)
+            r4.require(ok, f"{cls} default base scale", "ones (a unit scale per dimension)", f"output_scale = {T.show(osc, 4)}: without an explicit scale the prior does not have the unit diffusion the three models are compared at", qual, {"model": fam})
+        except (AnalysisError, RaiseSignal) as e:
+            r4.unknown(f"{cls} default base scale", str(e), qual, {"model": fam})
+        S.absorb(it)
+        # the *_diffuse constructors extend the state by exactly the requested number of diffuse derivatives -- one included
+        for fac, with_ode in (("prior_wiener_integrated_diffuse", False), ("prior_exponential_diffuse", True)):
+            for k in (0, 1, 2):
+                it = S.interp()
+                ssm = it.instantiate(it.class_value(qual), [], {}, "<harness>")
+                seen_k = []
+
+                def add_hook(itp, fn, a, kw, site, _s=seen_k):
+                    _s.append(kw.get("diffuse_derivatives", a[3] if len(a) > 3 else None))
+                    raise AnalysisError("(stop after the extension)")
+
+                it.method_hooks[f"{qual}._add_diffuse_derivatives"] = add_hook
+                m = [T.atom("ext.m0", array=False), T.atom("ext.m1", array=False)]  # (names of their own: atoms of one name share their declarations)
+                sd = [T.atom("ext.s0", array=False), T.atom("ext.s1", array=False)]
+                args = ([A("ode"), m, sd] if with_ode else [m, sd])
+                cfg = {"model": fam, "factory": fac, "diffuse_derivatives": k}
+                try:
+                    call(it, method(it, ssm, fac), *args, diffuse_derivatives=k, diffuse_eps=A("deps"))
+                except RaiseSignal as e:
+                    if getattr(e.exc, "cls_name", "") == "NotImplementedError" and not seen_k:
+                        r4.ok(f"{cls}.{fac} extension by {k}", "documented as not implemented", qual, cfg, nontrivial=False)
+                        continue
+                except AnalysisError:
+                    pass
+                S.absorb(it)
+                ok = (seen_k == [k]) if k > 0 else (seen_k in ([], [0]))
+                r4.require(ok, f"{cls}.{fac} extension by {k}", f"_add_diffuse_derivatives(..., diffuse_derivatives={k})" if k else "no extension (or an extension by 0)",
+                           f"_add_diffuse_derivatives called with {seen_k}: the prior does not get the {k} diffuse derivative(s) that were asked for", qual, cfg)
+        # flags given per coefficient: exact -> 0, not exact -> inexact_eps, selected by the coefficient's own flag
+        it = S.interp()
+        ssm = it.instantiate(it.class_value(qual), [], {}, "<harness>")
+        m = [T.atom("sd.m0", array=True), T.atom("sd.m1", array=True)]
+        flags = [T.atom("flag0", array=True), T.atom("flag1", array=True)]
+        try:
+            sd_ = call(it, method(it, ssm, "_tcoeffs_standard_deviation"), m, is_exact=flags, inexact_eps=A("ieps"))
+            leaves = list(sd_) if isinstance(sd_, (list, tuple)) else []
+            ok = len(leaves) == 2
+            for k_, x in enumerate(leaves):
+                ok = ok and isinstance(x, T.Term) and x.op == "np.where" and len(x.args) == 3 and x.args[1] in (0, 0.0) and x.args[2] is A("ieps") and f"flag{k_}" in T.atoms_of(x.args[0]) and f"flag{1 - k_}" not in T.atoms_of(x.args[0])
+            r4.require(bool(ok), f"{cls}._tcoeffs_standard_deviation(is_exact=per-coefficient flags)", "where(own flag, 0, inexact_eps) per coefficient", f"{T.show(sd_, 4)}", qual, {"model": fam})
+        except (AnalysisError, RaiseSignal) as e:
+            r4.unknown(f"{cls}._tcoeffs_standard_deviation(is_exact=per-coefficient flags)", str(e), qual, {"model": fam})
+        S.absorb(it)
         # the diffuse extension
         it = S.interp()
         ssm = it.instantiate(it.class_value(qual), [], {}, "<harness>")
